@@ -335,12 +335,8 @@ func runC09(c *Ctx, r *Report) {
 	af := &Flow{P: p, Fn: ane, Entry: Facts{}}
 	af.Edge = func(cond ast.Expr, taken bool, f Facts) {
 		for _, a := range splitCond(cond, taken) {
-			if be, ok := ast.Unparen(a.E).(*ast.BinaryExpr); ok {
-				if v, _ := p.FieldSel(ane, be.X); v == lengthF {
-					if lit, ok := ast.Unparen(be.Y).(*ast.BasicLit); ok && lit.Value == "0" && ((be.Op == token.LSS && a.Truth) || (be.Op == token.GEQ && !a.Truth)) {
-						f["unbounded"] = true
-					}
-				}
+			if nc, ok := p.normalizeCmp(ane, a, func(e ast.Expr) bool { v, _ := p.FieldSel(ane, e); return v == lengthF }); ok && nc.impliesNegative() {
+				f["unbounded"] = true
 			}
 		}
 	}
@@ -379,32 +375,16 @@ func runC09(c *Ctx, r *Report) {
 	sawTest := false
 	// limitAtom: is the atom a test of the no-limit case, and which side of it is this edge?
 	limitAtom := func(a condAtom) (isTest, unbounded bool) {
-		be, ok := ast.Unparen(a.E).(*ast.BinaryExpr)
-		if !ok {
-			return false, false
-		}
-		if v, _ := p.FieldSel(ane, be.X); v != lengthF {
-			return false, false
-		}
-		val, neg := "", false
-		switch y := ast.Unparen(be.Y).(type) {
-		case *ast.BasicLit:
-			val = y.Value
-		case *ast.UnaryExpr:
-			if lit, ok := y.X.(*ast.BasicLit); ok && y.Op == token.SUB {
-				val, neg = lit.Value, true
-			}
-		}
-		var whenTrue bool // does the atom being true mean "no limit"?
+		nc, ok := p.normalizeCmp(ane, a, func(e ast.Expr) bool { v, _ := p.FieldSel(ane, e); return v == lengthF })
 		switch {
-		case be.Op == token.LSS && val == "0" && !neg, be.Op == token.LEQ && val == "1" && neg, be.Op == token.EQL && val == "1" && neg:
-			whenTrue = true
-		case be.Op == token.GEQ && val == "0" && !neg, be.Op == token.GTR && val == "1" && neg, be.Op == token.NEQ && val == "1" && neg:
-			whenTrue = false
-		default:
+		case !ok:
 			return false, false
+		case nc.impliesNegative():
+			return true, true
+		case nc.impliesNonNegative(), nc.Op == token.NEQ && nc.C == -1:
+			return true, false
 		}
-		return true, whenTrue == a.Truth
+		return false, false
 	}
 	af.Edge = func(cond ast.Expr, taken bool, f Facts) {
 		baseEdge(cond, taken, f)
@@ -481,13 +461,18 @@ func runC09(c *Ctx, r *Report) {
 			if guard == nil {
 				okDisj = true
 			} else {
-				for _, d := range orDisjuncts(guard.Cond) {
-					if be, ok := ast.Unparen(d).(*ast.BinaryExpr); ok && be.Op == token.LSS {
-						if v, _ := p.FieldSel(fn, be.X); v == lengthF {
-							if lit, ok := ast.Unparen(be.Y).(*ast.BasicLit); ok && lit.Value == "0" {
-								okDisj = true
-							}
+				// one alternative of the condition holds for every negative limit, however the test is spelled
+				isLen := func(e ast.Expr) bool { v, _ := p.FieldSel(fn, e); return v == lengthF }
+				for _, alt := range dnfCond(guard.Cond, true) {
+					all := len(alt) > 0
+					for _, a := range alt {
+						nc, ok := p.normalizeCmp(fn, a, isLen)
+						if !ok || !nc.holdsForEveryNegative() {
+							all = false
 						}
+					}
+					if all {
+						okDisj = true
 					}
 				}
 			}
@@ -579,27 +564,8 @@ func runC09(c *Ctx, r *Report) {
 					}
 				}
 				return false
-			case *ast.BinaryExpr:
-				if !mentions(x.X) {
-					return false
-				}
-				val, neg := "", false
-				switch y := ast.Unparen(x.Y).(type) {
-				case *ast.BasicLit:
-					val = y.Value
-				case *ast.UnaryExpr:
-					if lit, ok := y.X.(*ast.BasicLit); ok && y.Op == token.SUB {
-						val, neg = lit.Value, true
-					}
-				}
-				switch {
-				case x.Op == token.GTR && a.Truth && ((val == "1" && neg) || (!neg && val != "")):
-					return true
-				case x.Op == token.GEQ && a.Truth && !neg && val != "":
-					return true
-				case x.Op == token.LSS && !a.Truth && !neg && val != "":
-					return true
-				case x.Op == token.LEQ && !a.Truth && val == "1" && neg:
+			case *ast.BinaryExpr, *ast.UnaryExpr:
+				if nc, ok := p.normalizeCmp(in, a, mentions); ok && nc.impliesNonNegative() {
 					return true
 				}
 			}
@@ -611,33 +577,7 @@ func runC09(c *Ctx, r *Report) {
 				if nonNegAtom(a, mentionsLimit, fn, 0) {
 					f["limited"] = true
 				}
-				be, ok := ast.Unparen(a.E).(*ast.BinaryExpr)
-				if !ok || !mentionsLimit(be.X) {
-					continue
-				}
-				val, neg := "", false
-				switch y := ast.Unparen(be.Y).(type) {
-				case *ast.BasicLit:
-					val = y.Value
-				case *ast.UnaryExpr:
-					if lit, ok := y.X.(*ast.BasicLit); ok && y.Op == token.SUB {
-						val, neg = lit.Value, true
-					}
-				}
-				nonneg := false
-				switch {
-				case be.Op == token.GTR && a.Truth && ((val == "1" && neg) || (!neg && val != "")):
-					nonneg = true
-				case be.Op == token.GEQ && a.Truth && !neg && val != "":
-					nonneg = true
-				case be.Op == token.LSS && !a.Truth && !neg && val != "": // !(x < 0)
-					nonneg = true
-				case be.Op == token.LEQ && !a.Truth && val == "1" && neg: // !(x <= -1)
-					nonneg = true
-				}
-				if nonneg {
-					f["limited"] = true
-				}
+
 			}
 		}
 		tf.Run()
